@@ -249,10 +249,19 @@ impl Gatekeeper {
 
     /// Gets a map of outdated users. Outdated users are those whose subscription has expired and the renewal grace period
     /// has already passed ([expiry_delta](Self::expiry_delta)).
+    // The purge computes this under its own guard of the users map (see `filtered_block_connected`).
+    #[cfg(test)]
     pub(crate) fn get_outdated_users(&self, block_height: u32) -> Vec<UserId> {
-        self.registered_users
-            .lock()
-            .unwrap()
+        self.outdated_among(&self.registered_users.lock().unwrap(), block_height)
+    }
+
+    /// Picks the outdated users (see [get_outdated_users](Self::get_outdated_users)) from an already locked users map.
+    fn outdated_among(
+        &self,
+        registered_users: &HashMap<UserId, UserInfo>,
+        block_height: u32,
+    ) -> Vec<UserId> {
+        registered_users
             .iter()
             // NOTE: Ideally there won't be a user with `block_height > subscription_expiry + expiry_delta`, but
             // this might happen if we skip a couple of block connections due to a force update.
@@ -310,18 +319,22 @@ impl chain::Listen for Gatekeeper {
         log::info!("New block received: {}", header.block_hash());
 
         // Expired user deletion is delayed. Users are deleted when their subscription is outdated, not expired.
-        let outdated_users = self.get_outdated_users(height);
-        if !outdated_users.is_empty() {
-            // Remove the outdated users from memory first.
-            {
-                let mut registered_users = self.registered_users.lock().unwrap();
+        // Who is outdated is decided, and the users are removed from memory and from the database, under one and the
+        // same lock of the users map (lock order: users before the database, as everywhere else). A registration served
+        // concurrently is therefore either taken into account (the renewed user stays) or starts a fresh subscription
+        // once the old one is gone entirely; it can never be acknowledged and then deleted, nor find the old row still
+        // in the database.
+        {
+            let mut registered_users = self.registered_users.lock().unwrap();
+            let outdated_users = self.outdated_among(&registered_users, height);
+            if !outdated_users.is_empty() {
                 // Removing each outdated user in a loop is more efficient than retaining non-outdated users
                 // because retaining would loop over all the available users which is always more than the outdated ones.
                 for outdated_user in outdated_users.iter() {
                     registered_users.remove(outdated_user);
                 }
+                self.dbm.lock().unwrap().batch_remove_users(&outdated_users);
             }
-            self.dbm.lock().unwrap().batch_remove_users(&outdated_users);
         }
 
         // Update last known block height
